@@ -537,6 +537,8 @@ class Evaluator:
                 raise EvalRaise("AttributeError")
             if o is None and len(args) == 3:
                 return args[2]
+            if isinstance(o, Opaque):
+                return Opaque(f"{o.name}.{args[1]}")
             raise Unsupported("getattr on a non-abstract object")
         if cn == "int" and len(args) == 1:
             if isinstance(args[0], DT):
